@@ -39,6 +39,10 @@ def run(chk):
                                        batches=1 if not thorough else 8)
     for k, v in h.items():
       hits[k] = hits.get(k, 0) + v
+  h = symtree_check.replay_transitions(chk, 'C07_states.cfg' if not thorough else 'C07_states_thorough.cfg', 'C07_step.cfg', CLAUSES,
+                                       max_states=400 if not thorough else 20000, seed=chk.seed)
+  for kk, v in h.items():
+    hits[kk] = hits.get(kk, 0) + v
   chk.notes['action_outcome_hits'] = dict(sorted(hits.items()))
   for need in ('Clone:ok', 'Seal:ok', 'SetAccW:ok', 'DictSet:ok', 'ListAppend:ok', 'Rebind:ok'):
     chk.require(hits.get(need, 0) > 0, f'vacuous: no replayed step {need}')
